@@ -476,6 +476,25 @@ def programs_builder(tier):
     return progs
 
 
+def programs_surface(tier):
+    """declaration surface: raw identifiers, doc comments, qualified type paths, user derives, private structs, argument order,
+    legacy `:` spellings.  None of it may change the generated behaviour."""
+    progs = []
+    el = Enum("Esf2", 2, [("A", 0), ("B", 1), ("C", 2), ("D", 3)], exhaustive="true", legacy_colon=True)     # #[bitenum(u2, exhaustive : true)]
+    f_type = F("r#type", T_u(3), (0, 3)); f_type.doc = "the kind (a keyword used as field name)"
+    f_loop = F("r#loop", T_bool(), (3, 1)); f_loop.doc = "documented flag"
+    f_q = F("q", T_u(5), (4, 5)); f_q.qualified = True
+    f_arr = F("r#match", T_u(2), (9, 2), array=(2, None)); f_arr.doc = "raw identifier on an array field"
+    f_e = F("r#enum", T_enum(el), (13, 2))
+    st = Struct("Ssurf", 16, [f_type, f_loop, f_q, f_arr, f_e], default=Default(0x8000, ":"), derives=("PartialEq", "Eq"), vis="")
+    assert st.valid()
+    progs.append(Program("surf", enums=[el], structs=[st], props=("C01", "C02", "C03", "C08", "C13", "C14", "C17", "C16", "C12", "C07")))
+    d1 = Struct("Ssurfd", 8, [F("r#fn", T_u(4), (0, 4)), F("x", T_bool(), (7, 1))], default=Default(0x10, "="), debug=True, debug_first=True, vis="pub(crate)")
+    assert d1.valid()
+    progs.append(Program("surfd", structs=[d1], props=("C19", "C06", "C13")))
+    return progs
+
+
 def programs_access(tier):
     """C17: every field kind x every access specifier"""
     e2 = mk_enum("Eac2", 2, None, values=[0, 1, 3])
@@ -654,6 +673,7 @@ def all_programs(tier, seed=0):
     progs += programs_access(tier)
     progs += programs_c14(tier)
     progs += programs_debug(tier)
+    progs += programs_surface(tier)
     if tier == "thorough":
         progs += random_programs(seed, 40)
     ids = [p.pid for p in progs]
